@@ -63,10 +63,6 @@ NA_FIXED = {
         "solves; analytic, nothing for TLC to enumerate",
  "C14": "logarithms/powers and their derivatives over twelve decades; only "
         "the rejection clause is discrete and too small a part to claim",
- "C16": "search over real stretching factors and irrational skin depths; "
-        "exact modelling exceeds TLC integers, abstraction would restate the "
-        "postconditions (integer part good_mg_cell_nr is checked as extra "
-        "coverage in MGParams)",
 }
 
 CLAIMED["C12"] = dict(
@@ -365,7 +361,45 @@ CLAIMED["C19"] = dict(
        "level: the numerical content is observed, not modelled.",
   ref="DESIGN.md section 5 (C19)", engine="tlc-layered")
 
+CLAIMED["C16"] = dict(
+  category="exploration",
+  technique="TLA+ model of the gridding search (Gridding.tla: one action per "
+            "candidate tried by meshes._stretch, loop bookkeeping folded "
+            "into the calls, three directions composed by construct_mesh) "
+            "checked exhaustively by TLC + TLC trace validation of recorded "
+            "real construct_mesh / origin_and_widths calls "
+            "(TraceGridding.tla) whose Ret event carries the postconditions "
+            "evaluated by the harness on the returned widths",
+  text="Partial claim.  TLC decides the search protocol: the mesh returned "
+       "is the output of the first fitting candidate in ascending order of "
+       "cell number and stretching, the buffer is grown from the "
+       "survey-domain result of the same cell number, no permitted cell "
+       "number is skipped, failure is reported (RuntimeError, or None inside "
+       "construct_mesh, which then raises) only after every candidate has "
+       "been tried, and construct_mesh is exactly the three per-direction "
+       "results.  Each returned direction's postconditions (permitted cell "
+       "count, positive widths, coverage of survey domain plus "
+       "wavelength-based buffer capped by max_buffer for both buffer modes, "
+       "neighbour stretching bounded by the larger factor outside a "
+       "provided vector, centre on node / cell centre as requested, vector "
+       "nodes kept, sea surface a node or warned) are computed by the "
+       "harness from the RETURNED origin and widths with its own reading of "
+       "the documented argument routing and skin-depth / wavelength / buffer "
+       "formulas, and evaluated by TLC as invariants of every trace (240 "
+       "quick / 4000 thorough calls over both frequency signs, property "
+       "lists of length 1,2,3,4,7 in six mappings, tuple / dict / single "
+       "formats, stretching pairs, width limits, pps, buffer options, "
+       "centre-on-edge switches, sea surfaces, custom cell-number lists).",
+  note="Trusted: TLC, the recorder (wraps meshes._stretch and "
+       "meshes.origin_and_widths at run time), the harness's formulas "
+       "(tolerance 1e-9 of the extent).  'No such mesh exists' is relative "
+       "to the candidates the search enumerates.  estimate_gridding_opts is "
+       "not covered.",
+  ref="DESIGN.md section 5 (C16)", engine="tlc-gridding")
+
 ENGINES = [
+ dict(name="tlc-gridding", path="spec/Gridding.tla", serves_properties=["C16"],
+      kind_free_text="TLA+ spec + TLC exhaustive + TLC trace validation"),
  dict(name="tlc-layered", path="spec/Layered.tla", serves_properties=["C19"],
       kind_free_text="TLA+ spec + TLC exhaustive + TLC trace validation; "
                      "exact-arithmetic reference + TLC validation of code "
